@@ -192,9 +192,65 @@ func objectNameExits(w *World) ([]nameExit, error) {
 				class += " (incomplete: " + strings.Join(miss, ", ") + " missing)"
 			}
 		}
+		// the exceptions that belong to one standard-library package must be tied to its
+		// import path: a user package that merely shares the name must not inherit them
+		if allowed := exceptionPackages[class]; allowed != nil {
+			paths := pathsGuarding(fn, r.Block())
+			var wrong []string
+			for _, p := range paths {
+				if !allowed[p] {
+					wrong = append(wrong, p)
+				}
+			}
+			switch {
+			case len(paths) == 0:
+				class += " (not restricted by import path: any package with such a name keeps it)"
+			case len(wrong) > 0:
+				class += " (also applied to " + strings.Join(wrong, ", ") + ")"
+			}
+		}
 		out = append(out, nameExit{Class: class, Ret: r})
 	}
 	return out, nil
+}
+
+// exceptionPackages: the import paths each package-specific exception is documented for.
+var exceptionPackages = map[string]map[string]bool{
+	"sync/atomic align64":           {"sync/atomic": true, "runtime/internal/atomic": true, "internal/runtime/atomic": true},
+	"embed.FS":                      {"embed": true},
+	"reflect.Method / MethodByName": {"reflect": true},
+	"crypto/x509/pkix *SET types":   {"crypto/x509/pkix": true},
+}
+
+// pathsGuarding lists the constants K such that the true edge of a test
+// "<pkg>.Path() == K" leads to block b. Case bodies of a switch are disjoint, so for a
+// block inside a body these are exactly the import paths the body runs for.
+func pathsGuarding(fn *ssa.Function, b *ssa.BasicBlock) []string {
+	set := map[string]bool{}
+	for _, blk := range fn.Blocks {
+		iff := ifOf(blk)
+		if iff == nil {
+			continue
+		}
+		bo, ok := iff.Cond.(*ssa.BinOp)
+		if !ok || bo.Op != token.EQL {
+			continue
+		}
+		call, ok := bo.X.(*ssa.Call)
+		if !ok || calleeName(call) != "(*go/types.Package).Path" {
+			continue
+		}
+		k, ok := constString(bo.Y)
+		if !ok {
+			continue
+		}
+		if blk.Succs[0] == b || reachableAvoiding(blk.Succs[0], nil)[b] {
+			// only if b is not also reachable when the test fails for every K: that is
+			// the case for blocks after the switch, which are not package-specific
+			set[k] = true
+		}
+	}
+	return sortedKeys(set)
 }
 
 // requiredNameExceptions: the documented exceptions that must all be present (floor).
@@ -212,4 +268,32 @@ func exitClasses(exits []nameExit) []string {
 	out := sortedKeys(m)
 	sort.Strings(out)
 	return out
+}
+
+// ruleNoNewNameExemption is R02.8 (first half): the exits of obfuscatedObjectName that keep a
+// name are exactly the documented exceptions, each in its documented extent. Shared by
+// C02 (a wider exception leaves names in the binary) and C15 (an exception that depends on
+// the declaring package bypasses the struct-identity salt: identical structs in two
+// packages get different field names).
+func ruleNoNewNameExemption(c *Ctx) {
+	w := c.W
+	c.Rule("R02.8", "no exemption beyond the documented ones keeps an identifier", 11)
+	exits, err := objectNameExits(w)
+	if err != nil {
+		c.Undecided("R02.8", "obfuscatedObjectName", "", err.Error())
+	}
+	seen := map[string]int{}
+	for _, e := range exits {
+		seen[e.Class]++
+		key := fmt.Sprintf("obfuscatedObjectName exit: %s #%d", e.Class, seen[e.Class])
+		switch {
+		case strings.HasPrefix(e.Class, "OTHER"):
+			key = fmt.Sprintf("obfuscatedObjectName undocumented exit #%d", seen[e.Class])
+			c.Bad("R02.8", key, w.Pos(e.Ret.Pos()), "obfuscatedObjectName keeps a name for a reason that is not one of the documented exceptions ("+strings.TrimPrefix(e.Class, "OTHER: ")+"): those identifiers appear in the binary")
+		case strings.Contains(e.Class, " (not restricted by import path") || strings.Contains(e.Class, " (also applied to "):
+			c.Bad("R02.8", key, w.Pos(e.Ret.Pos()), "a documented exception is applied beyond the package it is documented for: names (and struct fields, which are matched by bare name before the field branch) of unrelated packages are kept, so they appear in the binary and identical structs declared elsewhere get different field names")
+		default:
+			c.OK("R02.8", key, w.Pos(e.Ret.Pos()), "documented exception")
+		}
+	}
 }
